@@ -139,6 +139,19 @@ static int exit_status(void) {
     return e ? atoi(e) : 0;
 }
 
+/* Fault injection: with VSTUB_FAIL_MATCH=<word> a step that has <word> among its arguments fails
+ * (exit 1) after it was recorded and before it writes anything - a tool that dies. */
+static int fail_requested(int argc, char **argv) {
+    const char *m = getenv("VSTUB_FAIL_MATCH");
+    if (!m || !*m) return 0;
+    for (int i = 1; i < argc; i++)
+        if (!strcmp(argv[i], m)) {
+            fprintf(stderr, "vstub: injected failure (%s)\n", m);
+            return 1;
+        }
+    return 0;
+}
+
 static int recorder(int argc, char **argv) {
     int touching = 0, rc = 0;
     for (int i = 1; i < argc; i++) {
@@ -210,6 +223,7 @@ static int ccstub(int argc, char **argv, const char *base) {
     for (int i = 1; i + 1 < argc; i++) if (!strcmp(argv[i], "-o")) has_out = 1;
     if (!has_out && is_probe(argc, argv)) return 1;
     record(argc, argv);
+    if (fail_requested(argc, argv)) return 1;
     if (dash_file_argument(argc, argv, 1)) return 1;
     const char *out = NULL, *mf = NULL;
     struct buf ins = {0};
@@ -259,6 +273,7 @@ static int ccstub(int argc, char **argv, const char *base) {
 
 static int arstub(int argc, char **argv) {
     record(argc, argv);
+    if (fail_requested(argc, argv)) return 1;
     /* ar <flags> <archive> members... */
     if (argc >= 3 && dash_file_argument(argc, argv, 3)) return 1;
     if (argc >= 3) return create_file(argv[2], "ar") ? 1 : exit_status();
@@ -310,6 +325,7 @@ int main(int argc, char **argv) {
         return ccstub(argc, argv, base);
     if (starts(base, "var")) return arstub(argc, argv);
     record(argc, argv);
+    if (fail_requested(argc, argv)) return 1;
     if (starts(base, "vdrv")) return driver(argc, argv);
     return recorder(argc, argv);
 }
